@@ -103,22 +103,29 @@ Inductive case13 :=
 | KCsv (m : list record) (enc : obytes) (dec : oval)       (* encode; decode (encode m) *)
 | KCsvDec (inp : list Z) (o : oval).                       (* decode arbitrary bytes *)
 
+(* the committed quirk set: flags of open findings on, of fixed findings off
+   (derived from known_findings.txt by gen/c13.py) *)
+Record cfg := { c_j : jquirks; c_b : bquirks; c_w : wquirks; c_csv_empty : bool }.
+
+Definition jq_set (q : jquirks) (k : Z) (b : bool) : jquirks :=
+  {| q_json_strict_set_to_object := if k =? 11 then b else q_json_strict_set_to_object q;
+     q_json_offsets_holes_dropped := if k =? 12 then b else q_json_offsets_holes_dropped q;
+     q_json_multi_dict_panic := if k =? 13 then b else q_json_multi_dict_panic q;
+     q_json_key_unchecked := if k =? 14 then b else q_json_key_unchecked q;
+     q_json_b_unchecked := if k =? 15 then b else q_json_b_unchecked q;
+     q_json_a_set_as_array := if k =? 16 then b else q_json_a_set_as_array q |}.
+
 Definition jq1 (k : Z) : jquirks :=
   {| q_json_strict_set_to_object := k =? 11; q_json_offsets_holes_dropped := k =? 12;
      q_json_multi_dict_panic := k =? 13; q_json_key_unchecked := k =? 14;
      q_json_b_unchecked := k =? 15; q_json_a_set_as_array := k =? 16 |}.
 
-Definition jq_without (k : Z) : jquirks :=
-  {| q_json_strict_set_to_object := negb (k =? 11); q_json_offsets_holes_dropped := negb (k =? 12);
-     q_json_multi_dict_panic := negb (k =? 13); q_json_key_unchecked := negb (k =? 14);
-     q_json_b_unchecked := negb (k =? 15); q_json_a_set_as_array := negb (k =? 16) |}.
-
-(* first known-defective site the result depends on: a site whose repair alone
-   changes today's result, else a site that alone changes the repaired result *)
-Definition jattr (f : jquirks -> res json) : Z :=
+(* first known-defective site the result depends on: an enabled site whose
+   repair alone changes today's result, else a site that alone changes the
+   repaired result *)
+Definition jattr (cur : jquirks) (f : jquirks -> res json) : Z :=
   let off := f jquirks_off in
-  let cur := f jquirks_cur in
-  match filter (fun k => negb (res_json_eqb (f (jq_without k)) cur)) [11; 12; 13; 14; 15; 16] with
+  match filter (fun k => negb (res_json_eqb (f (jq_set cur k false)) (f cur))) [11; 12; 13; 14; 15; 16] with
   | k :: _ => k
   | [] =>
       match filter (fun k => negb (res_json_eqb (f (jq1 k)) off)) [11; 12; 13; 14; 15; 16] with
@@ -137,41 +144,41 @@ Definition csv_sig (m : list record) : Z :=
 
 (* 0 agrees and the property holds; 1 violation; 2 differs from the bug-compatible model
    inside a defect region (noted); 10 + k: known defect k reproduced; 3: outside the model (skipped) *)
-Definition classify (c : case13) : Z :=
+Definition classify (g : cfg) (c : case13) : Z :=
   match c with
   | KDec strict j o =>
       if agree_val (Ok (den (to_arrai strict j))) o then 0 else 1
   | KEnc strict r o =>
       let f := fun q => from_arrai q strict r in
-      let cur := f jquirks_cur in
+      let cur := f (c_j g) in
       if out_of_model cur then 3
       else if res_json_eqb cur (f jquirks_off)
       then (if agree_json cur o then 0 else 1)
-      else (if agree_json cur o then jattr f else 2)
+      else (if agree_json cur o then jattr (c_j g) f else 2)
   | KRound strict j o =>
       let d := to_arrai strict j in
       let f := fun q => rmap (fun j' => den (to_arrai strict j')) (from_arrai q strict d) in
-      let cur := f jquirks_cur in
+      let cur := f (c_j g) in
       let want : res val := Ok (den d) in
       if agree_val want o then (if res_val_eqb cur want then 0 else 2)
       else if res_val_eqb cur want then 1            (* the theorem says it holds here *)
       else if agree_val cur o
-           then (if res_val_eqb (f jquirks_off) want then jattr (fun q => from_arrai q strict d) else 17)
+           then (if res_val_eqb (f jquirks_off) want then jattr (c_j g) (fun q => from_arrai q strict d) else 17)
            else 2
   | KBitsSet n o =>
-      let cur := rmap (fun l => nset l) (bits_set bquirks_cur n) in
+      let cur := rmap (fun l => nset l) (bits_set (c_b g) n) in
       let off := rmap (fun l => nset l) (bits_set bquirks_off n) in
       if out_of_model cur then 3
       else if res_val_eqb cur off then (if agree_val cur o then 0 else 1)
       else (if agree_val cur o then 21 else 2)
   | KBitsMask v o =>
-      let cur := rmap VNum (bits_mask bquirks_cur v) in
+      let cur := rmap VNum (bits_mask (c_b g) v) in
       let off := rmap VNum (bits_mask bquirks_off v) in
       if out_of_model cur then 3
       else if res_val_eqb cur off then (if agree_val cur o then 0 else 1)
       else (if agree_val cur o then 22 else 2)
   | KWire r o =>
-      let cur := rmap den (bind (wire_escape wquirks_cur r) (wire_unescape wquirks_cur)) in
+      let cur := rmap den (bind (wire_escape (c_w g) r) (wire_unescape (c_w g))) in
       if out_of_model cur then 3
       else if wire_safe r then (if agree_val (Ok (den r)) o then 0 else 1)
       else if agree_val cur o
@@ -183,25 +190,25 @@ Definition classify (c : case13) : Z :=
                       end)
            else 2
   | KWireDec j o =>
-      let cur := rmap den (wire_unescape wquirks_cur j) in
+      let cur := rmap den (wire_unescape (c_w g) j) in
       let off := rmap den (wire_unescape wquirks_off j) in
       if res_val_eqb cur off then (if agree_val cur o then 0 else 1)
       else (if agree_val cur o then 33 else 2)
   | KCsv m enc dec =>
       let e := csv_encode m in
-      let d := rmap matrix_val (csv_decode_arg true e) in
+      let d := rmap matrix_val (csv_decode_arg (c_csv_empty g) e) in
       let enc_ok := match enc with OB b => zs_eqb b e | _ => false end in
       let back := agree_val (Ok (matrix_val m)) dec in
-      if match e with [] => true | _ => false end
+      if match e with [] => c_csv_empty g | _ => false end
       then (if enc_ok && agree_val d dec then 44 else if back then 2 else 1)   (* empty input rejected *)
       else if csv_ok m then (if enc_ok && back && agree_val d dec then 0 else 1)
       else if back then 2                                      (* better than the model predicts *)
       else if enc_ok && agree_val d dec then csv_sig m else 2
   | KCsvDec inp o =>
-      let d := rmap matrix_val (csv_decode_arg true inp) in
+      let d := rmap matrix_val (csv_decode_arg (c_csv_empty g) inp) in
       if out_of_model d then 3 else if agree_val d o then 0 else 1
   end.
 
 Record kcase := { k_id : Z; k_case : case13 }.
-Definition report (l : list kcase) : list (Z * Z) :=
-  filter (fun p => negb (Z.eqb (snd p) 0)) (map (fun k => (k_id k, classify (k_case k))) l).
+Definition report (g : cfg) (l : list kcase) : list (Z * Z) :=
+  filter (fun p => negb (Z.eqb (snd p) 0)) (map (fun k => (k_id k, classify g (k_case k))) l).
